@@ -278,6 +278,9 @@ def _name_obs(seg, tmps):
 
 def _obs_listing(ls, tmps, revids):
     rows = []
+    # temporaries are numbered by their rank (creation order) among those that are still present
+    heads = {p.split("/")[0] for p in ls if p.startswith(".tmp.")}
+    tmps = [t for t in tmps if t in heads]
     for p, (k, data, x) in ls.items():
         segs = [_name_obs(s, tmps) for s in p.split("/")]
         key = [s[0] for s in segs]
